@@ -20,17 +20,31 @@ import (
 
 // ---------------------------------------------------------------- key sizes
 
-// keyLenCase: a key of Len bytes (Nil: a nil slice instead of an empty one),
-// taken from the front of a buffer with Spare further bytes of capacity.
+// keyLenCase: a key of Len bytes handed to sm4.NewCipher as one of the
+// flavours
+//
+//	"guarded"        exactly Len bytes (cap == len) ending at an inaccessible page
+//	"spare"          the front of a heap buffer with Spare further bytes of
+//	                 capacity holding a sentinel (must stay untouched)
+//	"nil"            a nil slice                       (Len == 0)
+//	"empty"          []byte{}                          (Len == 0)
+//	"zero-of-buffer" buf[:0] of a Spare-byte buffer    (Len == 0)
+//
+// Scribble: the caller's key bytes (and the spare capacity) are overwritten
+// right after NewCipher returned; a 16-byte key must then still give the
+// textbook cipher for several later calls.
 type keyLenCase struct {
-	Len   int
-	Spare int
-	Nil   bool
-	Seed  uint64
+	Len      int
+	Flavour  string
+	Spare    int
+	Scribble bool
+	Seed     uint64
 }
 
+const keySentinel = 0xA7
+
 func checkKeyLen(c keyLenCase, r *h.Rec) error {
-	r.NTIf(c.Len != 16 || c.Spare > 0)
+	r.NTIf(c.Len != 16 || c.Flavour != "guarded" || c.Scribble)
 	switch {
 	case c.Len == 16:
 		r.Label("len=16")
@@ -41,49 +55,89 @@ func checkKeyLen(c keyLenCase, r *h.Rec) error {
 	default:
 		r.Label("len>16")
 	}
-	var key []byte
-	var g *gen.Guarded
-	if !c.Nil {
-		if c.Spare > 0 {
-			r.Label("spare-capacity")
-			backing := gen.Fill(gen.Mix(c.Seed, uint64(c.Len)), c.Len+c.Spare)
-			key = backing[:c.Len]
-		} else {
-			g = guarded(c.Len, true)
-			defer g.Free()
-			copy(g.B, gen.Fill(gen.Mix(c.Seed, uint64(c.Len)), c.Len))
-			key = g.B
-		}
+	r.Label("key-" + c.Flavour)
+	if c.Scribble {
+		r.Label("key-scribbled")
 	}
-	orig := append([]byte{}, key...)
+	material := gen.Fill(gen.Mix(c.Seed, uint64(c.Len)), c.Len)
+	var key, backing []byte
+	switch c.Flavour {
+	case "guarded":
+		g := guarded(c.Len, true)
+		defer g.Free()
+		copy(g.B, material)
+		key, backing = g.B, g.B
+	case "spare", "zero-of-buffer":
+		if c.Spare < 1 || (c.Flavour == "zero-of-buffer" && c.Len != 0) {
+			return fmt.Errorf("malformed case %+v", c)
+		}
+		backing = make([]byte, c.Len+c.Spare)
+		fill(backing, keySentinel)
+		copy(backing, material)
+		key = backing[:c.Len]
+	case "nil":
+		if c.Len != 0 {
+			return fmt.Errorf("malformed case %+v", c)
+		}
+	case "empty":
+		if c.Len != 0 {
+			return fmt.Errorf("malformed case %+v", c)
+		}
+		key = []byte{}
+	default:
+		return fmt.Errorf("malformed case %+v", c)
+	}
+	intact := func(when string) error {
+		if !bytes.Equal(key, material) {
+			return fmt.Errorf("%s: the %d-byte key was modified: %s -> %s", when, c.Len, h.Hex(material), h.Hex(key))
+		}
+		if i := allEq(backing[len(key):], keySentinel); i >= 0 {
+			return fmt.Errorf("%s: spare capacity of the key slice was written at offset %d", when, c.Len+i)
+		}
+		return nil
+	}
 	b, err := sm4.NewCipher(key)
-	if !bytes.Equal(key, orig) {
-		return fmt.Errorf("NewCipher modified the %d-byte key", c.Len)
+	if e := intact("NewCipher"); e != nil {
+		return e
 	}
 	if c.Len == 16 {
 		if err != nil || b == nil {
-			return fmt.Errorf("NewCipher rejected a 16-byte key %s: cipher=%v err=%v", h.Hex(orig), b, err)
+			return fmt.Errorf("NewCipher rejected a 16-byte key %s (%s): cipher=%v err=%v", h.Hex(material), c.Flavour, b, err)
 		}
-		in := gen.Fill(gen.Mix(c.Seed, 0x1234), 16)
-		got := make([]byte, 16)
-		b.Encrypt(got, in)
-		if want := refBlocks(orig, in, false); !bytes.Equal(got, want) {
-			return fmt.Errorf("key=%s (cap %d): Encrypt(%s) = %s want %s", h.Hex(orig), cap(key), h.Hex(in), h.Hex(got), h.Hex(want))
+		if c.Scribble {
+			copy(backing, gen.Fill(gen.Mix(c.Seed, 0x5c21bb1e), len(backing)))
+		}
+		got, back := make([]byte, 16), make([]byte, 16)
+		for i := 0; i < 3; i++ {
+			in := gen.Fill(gen.Mix(c.Seed, 0x1234, uint64(i)), 16)
+			b.Encrypt(got, in)
+			if want := refBlocks(material, in, false); !bytes.Equal(got, want) {
+				return fmt.Errorf("key=%s (%s, cap %d, scribbled after NewCipher: %v): call %d: Encrypt(%s) = %s want %s", h.Hex(material), c.Flavour, cap(key), c.Scribble, i, h.Hex(in), h.Hex(got), h.Hex(want))
+			}
+			b.Decrypt(back, got)
+			if !bytes.Equal(back, in) {
+				return fmt.Errorf("key=%s (%s, scribbled: %v): call %d: Decrypt(Encrypt(%s)) = %s", h.Hex(material), c.Flavour, c.Scribble, i, h.Hex(in), h.Hex(back))
+			}
+			if !c.Scribble {
+				if e := intact("Encrypt/Decrypt"); e != nil {
+					return e
+				}
+			}
 		}
 		return nil
 	}
 	if b != nil {
-		return fmt.Errorf("NewCipher returned a cipher (%T) for a %d-byte key (err=%v)", b, c.Len, err)
+		return fmt.Errorf("NewCipher returned a cipher (%T) for a %d-byte key (%s, err=%v)", b, c.Len, c.Flavour, err)
 	}
 	if err == nil {
-		return fmt.Errorf("NewCipher returned no error for a %d-byte key", c.Len)
+		return fmt.Errorf("NewCipher returned no error for a %d-byte key (%s)", c.Len, c.Flavour)
 	}
 	var kse sm4.KeySizeError
 	if !errors.As(err, &kse) {
-		return fmt.Errorf("NewCipher(%d-byte key): error %T (%v) is not an sm4.KeySizeError", c.Len, err, err)
+		return fmt.Errorf("NewCipher(%d-byte key, %s): error %T (%v) is not an sm4.KeySizeError", c.Len, c.Flavour, err, err)
 	}
 	if int(kse) != c.Len {
-		return fmt.Errorf("NewCipher(%d-byte key): KeySizeError(%d)", c.Len, int(kse))
+		return fmt.Errorf("NewCipher(%d-byte key, %s): KeySizeError(%d)", c.Len, c.Flavour, int(kse))
 	}
 	if err.Error() == "" {
 		return fmt.Errorf("KeySizeError(%d) has an empty message", c.Len)
@@ -95,17 +149,33 @@ func TestC02_KeySizes(t *testing.T) {
 	observeDispatch()
 	h.MarkExhaustive("key-sizes")
 	h.Sweep(t, h.P{Name: "key-sizes", Journal: true}, func(emit func(keyLenCase)) {
-		emit(keyLenCase{0, 0, true, h.Seed})
+		emit(keyLenCase{0, "nil", 0, false, h.Seed})
+		emit(keyLenCase{0, "empty", 0, false, h.Seed})
+		for _, spare := range []int{1, 15, 16, 17, 32, 64} {
+			emit(keyLenCase{0, "zero-of-buffer", spare, false, h.Seed})
+		}
 		for n := 0; n <= 64; n++ {
 			for rep := 0; rep < h.Scale(2, 16); rep++ {
-				emit(keyLenCase{n, 0, false, gen.Mix(h.Seed, uint64(rep))})
+				emit(keyLenCase{n, "guarded", 0, rep%2 == 1, gen.Mix(h.Seed, uint64(rep))})
 			}
-			for _, spare := range []int{1, 16, 48} {
-				emit(keyLenCase{n, spare, false, h.Seed})
+			// spare capacities that make cap(key) hit 16 or another plausible size
+			spares := []int{1, 16, 48}
+			if n < 16 {
+				spares = append(spares, 16-n)
+			}
+			for i, spare := range spares {
+				emit(keyLenCase{n, "spare", spare, i%2 == 0, h.Seed})
 			}
 		}
 		for _, n := range []int{65, 127, 128, 129, 255, 256, 257, 1024, 4096, 65536} {
-			emit(keyLenCase{n, 0, false, h.Seed})
+			emit(keyLenCase{n, "guarded", 0, false, h.Seed})
+		}
+		// a 16-byte key in every flavour, scribbled and not
+		for rep := 0; rep < h.Scale(8, 64); rep++ {
+			for _, scr := range []bool{false, true} {
+				emit(keyLenCase{16, "guarded", 0, scr, gen.Mix(h.Seed, 0x16, uint64(rep))})
+				emit(keyLenCase{16, "spare", 1 + rep%40, scr, gen.Mix(h.Seed, 0x17, uint64(rep))})
+			}
 		}
 	}, checkKeyLen)
 }
